@@ -1080,7 +1080,7 @@ func c11Shape(s c11Stmt) string {
 func (c11) Describe(tier string) fw.Description {
 	return fw.Description{
 		Level: "model_checking",
-		Rule: "(a) totality: every token string of length 1..n over a 25-token alphabet (keywords, identifiers, literals, punctuation, a window call, a lone quote, a lone backtick) and every byte string of length 0..m over 16 hostile bytes appended to 6 valid prefixes, and to every truncation after a token of 7 valid statements covering every clause family (JOIN/ON, OVER/PARTITION BY, MATCH_RECOGNIZE, windows, CASE ...), is parsed (rsql.Parse) under panic capture and a hang watchdog (20 s of CPU time on one input); (b) fidelity: every statement generated from the documented grammar (DISTINCT, 5+1 select lists with aliases/backticked keyword identifiers/keyword-bearing literals, FROM alias, INNER/LEFT JOIN, 10 WHERE clauses incl. string literals containing LIMIT / ORDER BY / WHERE / FROM / GROUP BY and the other quote character, 5 window kinds, 3 HAVING, 3 WITH option sets, 6 ORDER BY lists (explicit and implicit directions mixed), LIMIT; a third of them again with two sets of keyword-bearing identifiers such as orders, fromage, description, group1, isActive, nullable, whereabouts) is parsed and the returned configuration compared field by field with what was written; (b2) 108 MATCH_RECOGNIZE statements (PARTITION BY 0..2 columns, MEASURES, ONE/ALL ROWS PER MATCH, every AFTER MATCH SKIP form, 3 patterns, DEFINE incl. a literal containing DEFINE) with the clause compared field by field; (c) layout: each statement in 3 keyword cases x 5 separators (blank, newline, tab, two blanks, CRLF) must give a deep-equal configuration, and equal EmitSync results for a subset; non-trivial = the input was accepted",
+		Rule: "(a) totality: every token string of length 1..n over a 25-token alphabet (keywords, identifiers, literals, punctuation, a window call, a lone quote, a lone backtick) and every byte string of length 0..m over 16 hostile bytes appended to 6 valid prefixes, and to every truncation after a token of 7 valid statements covering every clause family (JOIN/ON, OVER/PARTITION BY, MATCH_RECOGNIZE, windows, CASE ...), is parsed (rsql.Parse) under panic capture and a hang watchdog (20 s of CPU time on one input); (b) fidelity: every statement generated from the documented grammar (DISTINCT, 5+1 select lists with aliases/backticked keyword identifiers/keyword-bearing literals, FROM alias, INNER/LEFT JOIN, 10 WHERE clauses incl. string literals containing LIMIT / ORDER BY / WHERE / FROM / GROUP BY and the other quote character, 5 window kinds, 3 HAVING, 3 WITH option sets, 6 ORDER BY lists (explicit and implicit directions mixed), LIMIT; a third of them again with two sets of keyword-bearing identifiers such as orders, fromage, description, group1, isActive, nullable, whereabouts) also with WITH (...) before HAVING and with the window written first in the GROUP BY list) is parsed and the returned configuration compared field by field with what was written; the one-edit neighbourhood (token deleted / doubled / swapped) of 9 valid statements in two layouts and padded parentheses are parsed for totality; (b2) 108 MATCH_RECOGNIZE statements (PARTITION BY 0..2 columns, MEASURES, ONE/ALL ROWS PER MATCH, every AFTER MATCH SKIP form, 3 patterns, DEFINE incl. a literal containing DEFINE) with the clause compared field by field; (c) layout: each statement in 3 keyword cases x 5 separators (blank, newline, tab, two blanks, CRLF) must give a deep-equal configuration, and equal EmitSync results for a subset; non-trivial = the input was accepted",
 		Bounds:      map[string]any{"token_len": map[string]int{"quick": 5, "thorough": 6}, "byte_len": map[string]int{"quick": 4, "thorough": 5}},
 		Assumptions: []string{"the grammar is the one accepted by rsql.Parser (clause order HAVING, WITH, ORDER BY, LIMIT; '*' only as the first select item)", "hang = a single Parse taking more than 5 s of wall clock"},
 	}
